@@ -133,7 +133,9 @@ inline void place(Case &c, const std::string &p, int viewpct) {
   c.set(p + ".top", rng(0, 2));
   c.set(p + ".bot", rng(0, 2));
   c.set(p + ".lw", rng(0, 3));
-  c.set(p + ".rw", rng(0, 2));
+  // mostly a parent only slightly wider than the view; sometimes a much wider one (row stride far above the view's width:
+  // anything derived from the stride instead of the width is then far off)
+  c.set(p + ".rw", wpick<int>({{9, rng(0, 2)}, {1, rng(20, 60)}}));
   c.set(p + ".slack", wpick<int>({{2, 0}, {2, rng(1, 63)}, {1, 1}, {1, 63}}));
   c.set(p + ".fill", wpick<int>({{6, 2}, {2, 1}, {1, 0}}));
   c.setu(p + ".fseed", seed());
